@@ -36,6 +36,10 @@ def run(ctx):
     ctx.extra["explanation"] = ("Deductive: the ghost draw trace of the real sample() is [Beta(alpha+1,n), Bernoulli(pi), Gamma(shape, 1/(b-log eta))] with pi the weight of the "
                                 "x^(a+K-1) component (NRA), every draw uses the sampler's generator; run.py passes K, n without outliers and stores the value through the "
                                 "setter; one shared TreeJointDistribution. Bounded: spying Generator on the real scipy calls + numeric mixture-vs-target comparison.")
+    if ctx.tier == "thorough":
+        from vcheck import lean as L
+
+        L.check_file(ctx, "MTelescope.lean", "C13")  # escobar_west_weight: the mixture weight from the masses of the two Gamma components
     from bounded import concentration as BC
 
     b = BC.run(ctx.tier, ctx.seed)
